@@ -520,6 +520,9 @@ NT_TOKEN_ROWS = [
     ('<http://e/s> <http://e/p> <http://e/o> .', ['<http://e/s>', '<http://e/p>', '<http://e/o>']),
     ('_:b1 <http://e/p> _:b2 .', ['_:b1', '<http://e/p>', '_:b2']),
     ('_:addr-home <http://e/p> _:b0.1 .', ['_:addr-home', '<http://e/p>', '_:b0.1']),
+    ('<http://e/s> <http://e/p> _:b1.', ['<http://e/s>', '<http://e/p>', '_:b1']),
+    ('<http://e/s> <http://e/p> <http://e/o>.', ['<http://e/s>', '<http://e/p>', '<http://e/o>']),
+    ('<http://e/s> <http://e/p> "x".', ['<http://e/s>', '<http://e/p>', '"x"']),
     ('<http://e/s> <http://e/p> "x" .', ['<http://e/s>', '<http://e/p>', '"x"']),
     ('<http://e/s> <http://e/p> "x"@en-GB .', ['<http://e/s>', '<http://e/p>', '"x"@en-GB']),
     ('<http://e/s> <http://e/p> "5"^^<http://www.w3.org/2001/XMLSchema#int> .',
